@@ -28,6 +28,8 @@ pub enum WriteEv {
     /// accept everything
     All,
     Eintr,
+    /// an interrupted write reported by kind only (no OS error number), as a wrapping stream may
+    EintrKind,
     Eagain,
     Epipe,
     Zero,
@@ -102,6 +104,7 @@ impl Write for ScriptedStream {
                 Ok(buf.len())
             }
             WriteEv::Eintr => Err(io::Error::from_raw_os_error(libc::EINTR)),
+            WriteEv::EintrKind => Err(io::Error::from(io::ErrorKind::Interrupted)),
             WriteEv::Eagain => Err(io::Error::from_raw_os_error(libc::EAGAIN)),
             WriteEv::Epipe => Err(io::Error::from_raw_os_error(libc::EPIPE)),
             WriteEv::Zero => Ok(0),
